@@ -1,6 +1,6 @@
 """A cooperative scheduler for threads running python_minifier code.
 
-Scheduling points are `line` (or `call`) trace events in frames whose code lives under python_minifier/.  Exactly one thread runs at a time
+Scheduling points are `line` (or `call`, or `opcode`) trace events in frames whose code lives under python_minifier/.  Exactly one thread runs at a time
 (every other thread is parked on its own semaphore), so an execution is fully determined by the schedule.  Schedules are enumerated by
 iterative context bounding: 0 preemptions, then every single preemption point, then pairs.
 """
@@ -49,6 +49,8 @@ class Run(object):
                 if gran == 'call':
                     self._point(idx)
                     return None
+                if gran == 'opcode':
+                    frame.f_trace_opcodes = True        # every bytecode instruction of python_minifier frames is a scheduling point
                 return local
             return None
         return tracer
